@@ -245,6 +245,10 @@ def _json_composition_problem(obj, text):
     return None
 
 
+def _reject_constant(token):
+    raise ValueError('%s is not a JSON value' % token)
+
+
 def _wellformed(res, name, out, obj=None, benign=False):
     ok = True
     text = out['json']
@@ -257,7 +261,7 @@ def _wellformed(res, name, out, obj=None, benign=False):
         ok = False
     else:
         try:
-            json.loads(text)
+            json.loads(text, parse_constant=_reject_constant)      # NaN / Infinity are not JSON (RFC 8259, section 6)
         except ValueError as exc:
             res.violation((PROPERTY, 'json-malformed', name), 'a standard JSON parser accepts the document',
                           '%s in %s' % (exc, text[:200]))
@@ -381,7 +385,9 @@ def generate(rng, index, tier, extra):  # pylint: disable=unused-argument
     order2 = list(range(len(subjects)))
     rng.shuffle(order2)
     return {'kind': 'history', 'subjects': subjects, 'order2': order2,
-            'encoder': rng.choice(('default', 'default', 'tag'))}
+            'encoder': rng.choice(('default', 'default', 'tag')),
+            # the machine's time zone is part of the environment the output must not depend on
+            'tz': rng.choice((None, None, None, 'Asia/Kolkata', 'America/St_Johns', 'Pacific/Kiritimati', 'Europe/Berlin'))}
 
 
 # ---------------------------------------------------------------- execution
@@ -413,6 +419,7 @@ def execute(doc):
 
 
 _ACCEPTED_SWEEP = None
+NUMBER_TOKENS = (b'1e999', b'-1e999', b'NaN', b'Infinity', b'-Infinity', b'0.5', b'1.0000000000000002', b'1e-999', b'-0', b'0x10')
 NUMBER_SWEEP = (0, 1, 2, 7, 8, 9, 15, 16, 17, 24, 31, 32, 33, 63, 64, 65, 100, 120, 127, 128, 129, 255, 256, 65535)
 
 
@@ -464,8 +471,9 @@ def _exec_accsweep(doc, res):
         # percentages): still a plain valid-looking input, so the round trip must serialise identically
         if wirefault.is_text(raw):
             import re
-            for match in list(re.finditer(rb'(?<![0-9A-Za-z.:])\d{1,5}(?![0-9A-Za-z.:])', raw))[:12]:
+            for match in list(re.finditer(rb'(?<![0-9A-Za-z.:])\d{1,9}(?:\.\d{1,6})?(?![0-9A-Za-z.:])', raw))[:12]:
                 plan += [[match.start(), match.end() - match.start(), 'n%d' % number] for number in NUMBER_SWEEP]
+                plan += [[match.start(), match.end() - match.start(), 't' + token.hex()] for token in NUMBER_TOKENS]
         # ... and every single octet overwritten (all five values for small inputs, two for large ones)
         values = ('b00', 'b01', 'b7f', 'b80', 'bff') if len(raw) <= 600 else ('b01', 'bff')
         plan += [[offset, 1, name] for offset in range(len(raw)) for name in values]
@@ -474,6 +482,8 @@ def _exec_accsweep(doc, res):
         strict = False
         if name.startswith('n') and name[1:].isdigit():
             fill, strict = name[1:].encode(), True
+        elif name.startswith('t') and len(name) > 1 and all(c in '0123456789abcdef' for c in name[1:]):
+            fill = bytes.fromhex(name[1:])
         elif name.startswith('b') and len(name) == 3:
             fill = bytes((int(name[1:], 16), ))
         else:
@@ -518,6 +528,26 @@ def _exec_accsweep(doc, res):
 
 
 def _exec_history(doc, res):  # pylint: disable=too-many-branches,too-many-statements
+    zone = doc.get('tz')
+    if not zone:
+        _exec_history_in_zone(doc, res)
+        return
+    import time as _time
+    old = os.environ.get('TZ')
+    os.environ['TZ'] = zone
+    _time.tzset()
+    res.stats['fault.time_zone_installed'] += 1
+    try:
+        _exec_history_in_zone(doc, res)
+    finally:
+        if old is None:
+            os.environ.pop('TZ', None)
+        else:
+            os.environ['TZ'] = old
+        _time.tzset()
+
+
+def _exec_history_in_zone(doc, res):  # pylint: disable=too-many-branches,too-many-statements
     from cryptoparser.common.base import Serializable
     specs = doc['subjects']
     installed = None
